@@ -201,7 +201,7 @@ class EsTreeGen:
         if k < 0.5:
             return self.nm(gen.W(r.choice(WORDS)))
         if k < 0.65:
-            return self.nm(gen.P(r.choice(['"x y"', '"p"', '"a  b\tc"', '""'])))
+            return self.nm(gen.P(r.choice(['"x y"', '"p"', '"a  b\tc"', '""', '"say \\"hi\\""', '"5\\""', '"\\"q"'])))
         if k < 0.8:
             lo = gen.W(r.choice(["1", "*", "a"]))
             hi = gen.W(r.choice(["9", "*", "m"])) if r.random() < 0.85 else gen.P('"m n"')
@@ -237,8 +237,15 @@ class EsTreeGen:
     def value(self, d, base):
         """what stands after `field:`"""
         r = self.r
-        if d <= 0 or r.random() < 0.5:
+        if d <= 0 or r.random() < 0.4:
             return self.leaf()
+        if r.random() < 0.25:
+            # an operation all of whose operands address fields below `base` (sub-containers included)
+            cls = r.choice(["AndOperation", "OrOperation", "UnknownOperation"])
+            ch = [self.field(d - 1, base) if r.random() < 0.85 else self.nm(gen.mk(r.choice(["Not", "Prohibit"]),
+                                                                                  [self.field(d - 1, base)]))
+                  for _ in range(r.choice([2, 2, 3]))]
+            return self.nm(gen.mk(cls, ch))
         return self.tree(d, base)
 
     def tree(self, d, base=()):
@@ -511,6 +518,48 @@ def bool_operand_kinds(d, cfg, containers):
                           (core["c"] == "UnknownOperation" and not dflt_or)):
                 found.add("wrapped")
     return found
+
+
+def norm_object_spec(spec):
+    """independent reading of an object_fields / sub_fields specification: None = not declared; otherwise
+    the set of dotted names it denotes (lists as given, dicts by their leaf paths)"""
+    if spec is None:
+        return None
+    if isinstance(spec, dict):
+        out = set()
+
+        def walk(d, pfx):
+            if not d:
+                out.add(".".join(pfx))
+                return
+            if isinstance(d, dict):
+                for k, v in d.items():
+                    walk(v, pfx + [k])
+            else:
+                for k in d:
+                    out.add(".".join(pfx + [k]))
+        walk(spec, [])
+        return out
+    return set(spec)
+
+
+def norm_nested_leaves(spec):
+    """independent reading of a nested_fields specification: set of the dotted names of all its members"""
+    out = set()
+
+    def walk(d, pfx):
+        if not d:
+            if pfx:
+                out.add(".".join(pfx))
+            return
+        if isinstance(d, dict):
+            for k, v in d.items():
+                walk(v, pfx + [k])
+        else:
+            for k in d:
+                out.add(".".join(pfx + [k]))
+    walk(spec or {}, [])
+    return out
 
 
 def declared_containers(spec, prefix=""):
